@@ -17,7 +17,7 @@ RULE = (
     "score >= FCFS score, pseudoknot-free => only round brackets; both BpSeq.dot_bracket and "
     "convert_to_dot_bracket(CBC); the notations of the objects returned by without_isolated() / without_pseudoknots() are judged the same way for the derived pairing; "
     "additionally convert_to_dot_bracket with a scripted solver that gives up (4 "
-    "non-optimal statuses or PulpSolverError, variables unset or half-set): still proper and >= FCFS. Non-trivial: >=2 mutually crossing stems of different lengths; distinct = "
+    "non-optimal statuses or PulpSolverError, variables unset or half-set): still proper and >= FCFS; half of the unequal-length chord-diagram shards judge every request AFTER a conversion in the same process whose solver - an instance of the bundled back-end's class - raised PuLP's error. Non-trivial: >=2 mutually crossing stems of different lengths; distinct = "
     "distinct (sequence, pair set)."
 )
 ASSUMPTIONS = [
@@ -53,10 +53,31 @@ def _check_levels(tag, structure, seq, pairs, st, g, opt, fcfs_score):
     return out
 
 
+def _failed_call_first():
+    """history before the judged request: in the same process, one conversion of a knotted structure whose solver - an
+    instance of the bundled back-end's own class, so it carries the same class-level name - raised PuLP's solver error
+    (what a killed CBC or a full temp directory gives). Its own result is C13's matter; the requests judged AFTER it
+    are fresh objects with working solvers and owe the optimum all the same."""
+    import pulp
+    from rnapolis.common import BpSeq
+
+    class Failing(pulp.PULP_CBC_CMD):
+        def actualSolve(self, lp, **kw):
+            raise pulp.PulpSolverError("injected solver failure")
+
+    for txt in ("1 A 3\n2 C 4\n3 U 1\n4 G 2\n", ssref.bpseq_text(*ssref.ladder(3, 2, 1)[:2])):
+        try:
+            BpSeq.from_string(txt).convert_to_dot_bracket(Failing(msg=False))
+        except Exception:
+            pass
+
+
 def oracle(case) -> list:
     import pulp
     from rnapolis.common import BpSeq
 
+    if len(case) > 2 and case[2] == "after-failed-call":
+        _failed_call_first()
     seq, pairs = case[0], [tuple(p) for p in case[1]]
     st, g, comps = ssref.describe(seq, pairs)
     # beyond 10 stems in one group the reference optimiser is not run: properness, greedy stability against FCFS and
@@ -204,7 +225,9 @@ def plan(tier, seed):
     for k, shards, pats in ([(4, 1, 3), (5, 6, 2)] if tier == "quick" else [(4, 1, 6), (5, 4, 6), (6, 16, 3)]):
         for pat in range(pats):
             for sl in range(shards):
-                specs.append({"kind": "chords", "k": k, "slice": sl, "of": shards, "lens": LENGTH_PATTERNS[pat][:k]})
+                # every second of these shards judges its requests AFTER a failed call in the same process
+                specs.append({"kind": "chords", "k": k, "slice": sl, "of": shards, "lens": LENGTH_PATTERNS[pat][:k],
+                              "after_failed_call": (sl + pat) % 2 == 1 or k == 4})
     for idx, (n, m) in enumerate(hyp):
         specs.append({"kind": "blowup", "examples": n, "max_abstract": m, "seed": seed * 1000 + idx})
     for k in range(4 if tier == "quick" else 16):
@@ -228,7 +251,7 @@ def plan(tier, seed):
 def run_shard(spec) -> ShardResult:
     res = ShardResult()
     kind = spec["kind"]
-    tj = lambda c: [c[0], [list(p) for p in c[1]]]
+    tj = lambda c: [c[0], [list(p) for p in c[1]]] + list(c[2:])
     if kind == "exhaustive":
         idx = 0
         for n in range(1, spec["N"] + 1):
@@ -246,8 +269,12 @@ def run_shard(spec) -> ShardResult:
         for idx, chords in enumerate(ssref.perfect_matchings(spec["k"])):
             if idx % spec["of"] == spec["slice"]:
                 case = ssref.chord_structure(chords, True, spec.get("lens"))
+                hist = []
+                if spec.get("after_failed_call"):
+                    case = tuple(case[:2]) + ("after-failed-call",)
+                    hist = ["after-a-failed-solver-call-in-the-same-process"]
                 nt, labs = classify(case)
-                res.note_case(tj(case), nt, labs + [f"chord-diagram-k={spec['k']}"], sample_cap=1)
+                res.note_case(tj(case), nt, labs + [f"chord-diagram-k={spec['k']}"] + hist, sample_cap=1)
                 check_case(PROP_ID, oracle, case, res, to_json=tj)
         res.exhaustive = True
         res.extra[f"chord_diagrams_k{spec['k']}"] = res.evaluations
